@@ -112,7 +112,10 @@ def _coerce_int_to_range_index(y, X=None):
             "failed. Please provide `y_train` with a "
             "pd.RangeIndex."
         )
+    # re-index copies: the caller's y and X keep their own index objects
+    y = y.copy()
     y.index = new_index
     if X is not None:
+        X = X.copy()
         X.index = new_index
     return y, X
